@@ -119,6 +119,13 @@ mod pairing {
         (Vec::new(), Vec::new(), d)
     }
 
+    // the tail of infer_edits splits trailing whitespace off unpaired added lines with
+    // str::trim_end (unicode whitespace searchers: minutes of symbolic execution); the lines of
+    // this harness have no trailing whitespace
+    fn stub_trailing(_line: &str) -> Option<&str> {
+        None
+    }
+
     fn any_distance() -> f64 {
         // a distance is a ratio in [0, 1]; a few representative values keep the query small
         let k: u8 = kani::any();
@@ -226,6 +233,7 @@ mod pairing {
     #[kani::unwind(6)]
     #[kani::stub(tokenize, stub_tokenize)]
     #[kani::stub(annotate, stub_annotate)]
+    #[kani::stub(get_contents_before_trailing_whitespace, stub_trailing)]
     fn c06_pairing_2_2() {
         check::<2, 2>();
     }
@@ -234,6 +242,7 @@ mod pairing {
     #[kani::unwind(6)]
     #[kani::stub(tokenize, stub_tokenize)]
     #[kani::stub(annotate, stub_annotate)]
+    #[kani::stub(get_contents_before_trailing_whitespace, stub_trailing)]
     fn c06_pairing_1_2() {
         check::<1, 2>();
     }
